@@ -630,6 +630,19 @@ static void run_sign_case(struct rng *r, long c, int maxhops)
 			snprintf(key, sizeof(key), "C12:wrong-code:%s:got%d", lbl, rc);
 			viol("C12", key, "%s: expected %d, library returned %d", lbl, want, rc);
 		}
+		if (kind <= 2 && rc != RTR_BGPSEC_SUCCESS) {
+			/* the answer must not depend on what was presented before: the same unloadable key again */
+			struct rtr_signature_seg *ns2 = NULL;
+			int rc2 = rtr_mgr_bgpsec_generate_signature(b, bad, &ns2);
+
+			CNT("c12/negative_cases_repeated");
+			if (rc2 != want) {
+				snprintf(key, sizeof(key), "C12:wrong-code-on-repeat:%s:got%d", lbl, rc2);
+				viol("C12", key, "%s presented a second time: expected %d again, library returned %d", lbl, want, rc2);
+			}
+			if (ns2 && rc2 != RTR_BGPSEC_SIGNING_ERROR)
+				rtr_mgr_bgpsec_free_signatures(ns2);
+		}
 		if (rc != RTR_BGPSEC_SUCCESS && ns != NULL && kind >= 3) {
 			snprintf(key, sizeof(key), "C12:new-signature-set-on-error:%s", lbl);
 			viol("C12", key, "%s: *new_signature was modified although the call failed with %d", lbl, rc);
